@@ -9,7 +9,7 @@ extern "C" {
 }
 using namespace vf;
 
-struct Item { uint64_t N; int op; int mtype; CpuCfg cfg; bool full_strides; bool sparse = false; };
+struct Item { uint64_t N; int op; int mtype; CpuCfg cfg; bool full_strides; bool sparse = false; bool wide = false; };
 
 static void run_item(Ctx& ctx, const Item& it) {
   const VecOp& op = VECOPS[it.op];
@@ -28,6 +28,7 @@ static void run_item(Ctx& ctx, const Item& it) {
   // limb counts: the complete box {0..3}^3 plus every combination of the larger counts {5, 9}
   std::vector<uint64_t> SZ = {0, 1, 2, 3, 5, 9}, SZ0 = {0};
   if (it.sparse) SZ = {0, 1, 3};  // large-N layer of the quick tier
+  if (it.wide) SZ = {0, 1, 33, 65, 129, 257};  // wide layer: limb counts around 32, 64, 128, 256 at small N
   for (uint64_t rs : SZ)
     for (uint64_t as : (op.nin >= 1 ? SZ : SZ0))
       for (uint64_t bs : (op.nin >= 2 ? SZ : SZ0))
@@ -146,6 +147,7 @@ int main(int argc, char** argv) {
   };
   for (uint64_t N : Ns) add_items(N, true);
   if (!args.thorough()) for (uint64_t N : {2048, 16384}) { size_t k0 = items.size(); add_items(N, false); for (size_t k = k0; k < items.size(); ++k) items[k].sparse = true; }
+  for (uint64_t N : {4, 16}) { size_t k0 = items.size(); add_items(N, false); for (size_t k = k0; k < items.size(); ++k) items[k].wide = true; }
   if (args.thorough()) {
     for (uint64_t N : NM) add_items(N, true);
     for (uint64_t N : NL) add_items(N, false);
@@ -174,7 +176,7 @@ int main(int argc, char** argv) {
   extra.set("ring_dimensions", ns).set("ops", NVECOPS).set("cfgs", (int)cf.size());
   return ctx.finish("exploration",
                     "nested product op x N x module type x cfg x (res_size,a_size,b_size) in {0,1,2,3,5,9}^3 x strides {N,N+1,N+3,2N+5} per small operand x p set; "
-                    "plus a huge-stride layer (2^28+N+1, 2^29+N, 2^31+N+3, 2^32+N+1 on every non-empty subset of the small operands, 2-3 limbs, N = 8 and 1024); "
+                    "plus a wide layer (limb counts {0,1,33,65,129,257}^3 at N = 4, 16) and a huge-stride layer (2^28+N+1, 2^29+N, 2^31+N+3, 2^32+N+1 on every non-empty subset of the small operands, 2-3 limbs, N = 8 and 1024); "
                     "a case is non-trivial when res_size > 0 (something must be written); distinct = distinct case ids",
                     true, extra);
 }
